@@ -177,6 +177,15 @@ def one_case(args):
     os.makedirs(os.path.join(d, 'sub'))
     with open(os.path.join(d, 'sub', 'other.dat'), 'wb') as f:
         f.write(b'\x00\x01')
+    shared = None
+    if i % 8 == 3:
+        # the output directory holds a link to a directory kept elsewhere, with files the command does not touch
+        shared = d + '-shared'
+        shutil.rmtree(shared, ignore_errors=True)
+        os.makedirs(shared)
+        with open(os.path.join(shared, 'lookup.csv'), 'w') as f:
+            f.write('k,v\n1,2\n')
+        os.symlink(shared, os.path.join(d, 'outdir', 'data'))
     regen = rng.random() < 0.3
     flags = []
     if beh['code'] != 0:
@@ -252,6 +261,10 @@ def one_case(args):
         p = os.path.join(sibling if n in beh.get('sibling', ()) else os.path.join(d, 'outdir'), n)
         if not os.path.exists(p) or open(p, 'rb').read() != data:
             res['problems'].append("the command's own output file outdir/%s is missing or altered after generation" % n)
+    if shared is not None and (not os.path.exists(os.path.join(shared, 'lookup.csv')) or
+                               open(os.path.join(shared, 'lookup.csv')).read() != 'k,v\n1,2\n'):
+        res['problems'].append('a file reached through a linked directory (outdir/data -> %s) that existed before was removed '
+                               'or altered' % os.path.basename(shared))
     leftovers = [p for p in after if p.startswith(refprefix) and os.path.dirname(p) != refprefix.rstrip(os.sep)]
     tests, dup = G.script_tests(spath)
     if dup:
@@ -260,6 +273,10 @@ def one_case(args):
     rc2, results, out2 = G.run_script(d, name)
     res['run_rc'] = rc2
     res['results'] = results
+    if shared is not None and (not os.path.exists(os.path.join(shared, 'lookup.csv')) or
+                               open(os.path.join(shared, 'lookup.csv')).read() != 'k,v\n1,2\n'):
+        res['problems'].append('running the generated test removed or altered a file reached through a linked directory '
+                               '(outdir/data -> %s) that existed before generation' % os.path.basename(shared))
     if rc2 != 0 or any(v != 'ok' for v in results.values()) or not results:
         res['problems'].append('the generated test does not pass straight afterwards (exit %s): %s' % (rc2, out2[-700:]))
     want = 2 + int(check_stdout) + int(check_stderr) + len(beh['files']) + len(beh.get('both', ()))
